@@ -50,7 +50,7 @@ class C16(Prop):
             "rejected statement raises DDLParserError (a SimpleDDLParserException) when not silent; no raise => equal results; "
             "supported-only scripts never raise; unknown mode => SimpleDDLParserException naming all 15 modes, whatever the script; "
             "non-trivial = >= 2 supported blocks and >= 1 rejected statement that is neither first nor last; distinct = SHA-1 of the case")
-    budgets = {"quick": 3000, "thorough": 120000}
+    budgets = {"quick": 3000, "thorough": 60000}
     assumptions = [
         "statements with characters outside the lexer alphabet or unbalanced quotes raise even when silent (known finding K11); the "
         "templates avoid them",
